@@ -38,12 +38,26 @@ Qed.
 Lemma bfind_bdel_some t u b w : bfind t (bdel u b) = Some w -> bfind t b = Some w.
 Proof. rewrite bfind_bdel. destruct (Nat.eqb u t); [discriminate|auto]. Qed.
 
+Lemma bfind_wflag t x b :
+  bfind t (map (fun e => (fst e, wflag x (snd e))) b) = option_map (wflag x) (bfind t b).
+Proof.
+  induction b as [|[u w] b IH]; cbn [map bfind fst snd]; auto.
+  destruct (Nat.eqb u t); auto.
+Qed.
+
+Lemma bfind_wflag_wwg t x b :
+  bfind t (map (fun e => (fst e, wflag x (snd e))) b) = Some WWg -> bfind t b = Some WWg.
+Proof.
+  rewrite bfind_wflag. destruct (bfind t b) as [[y bb fl|]|]; cbn; auto.
+  destruct (y =? x); discriminate.
+Qed.
+
 (* what a completed channel send does to the state *)
-Lemma do_send_cases c s x s' : do_send c s x = Some s' ->
+Lemma do_send_cases c s x fl s' : do_send c s x fl = Some s' ->
   s' = s \/
   (exists i, first_idle (loops s) = Some i /\ f_recv_emits c = true /\
-             s' = set_loops s (lset i (LWrite [(x, false)]) (loops s))) \/
-  s' = set_chan s (chanq s ++ [(x, false)]).
+             s' = set_loops s (lset i (LWrite [(x, fl)]) (loops s))) \/
+  s' = set_chan s (chanq s ++ [(x, fl)]).
 Proof.
   unfold do_send. intros H.
   destruct (f_chan c).
@@ -63,12 +77,12 @@ Ltac dsend E :=
   destruct E as [->|[(i & Hfi & Hre & ->)| ->]].
 
 (* ================= no_panic ================= *)
-Lemma do_send_panicked c s x s' : do_send c s x = Some s' -> panicked s' = panicked s.
+Lemma do_send_panicked c s x fl s' : do_send c s x fl = Some s' -> panicked s' = panicked s.
 Proof. intros E; dsend E; reflexivity. Qed.
 
-Lemma sop_panicked c s t x b : panicked (send_or_park c s t x b) = panicked s.
+Lemma sop_panicked c s t x b fl : panicked (send_or_park c s t x b fl) = panicked s.
 Proof.
-  unfold send_or_park. destruct (do_send c s x) eqn:E; [eapply do_send_panicked; eauto|reflexivity].
+  unfold send_or_park. destruct (do_send c s x fl) eqn:E; [eapply do_send_panicked; eauto|reflexivity].
 Qed.
 
 Lemma step_no_panic c : close_idem c = true ->
@@ -84,7 +98,7 @@ Proof.
     + auto.
     + destruct (f_site c); try rewrite sop_panicked; auto.
     + destruct (f_close c); [|discriminate]. destruct (_ && _); auto.
-  - unfold resume in H. destruct (bfind t (blocked s)) as [[x b|]|]; [| |discriminate].
+  - unfold resume in H. destruct (bfind t (blocked s)) as [[x b fl|]|]; [| |discriminate].
     + destruct (do_send _ _ _) eqn:E; inversion H; subst. apply do_send_panicked in E. rewrite E; auto.
     + destruct (loops s); inversion H; auto.
   - destruct (lfind i (loops s)) as [[|p]|]; inversion H; auto.
@@ -136,14 +150,14 @@ Proof. intros ->; reflexivity. Qed.
 Lemma ldel_nil i ls : ls = [] -> ldel i ls = [].
 Proof. intros ->; reflexivity. Qed.
 
-Lemma do_send_cframe c s x s' : do_send c s x = Some s' -> cframe s s'.
+Lemma do_send_cframe c s x fl s' : do_send c s x fl = Some s' -> cframe s s'.
 Proof.
   intros E; dsend E; unfold cframe; cbn; repeat split; auto using lset_nil.
 Qed.
 
-Lemma sop_cframe c s t x b : cframe s (send_or_park c s t x b).
+Lemma sop_cframe c s t x b fl : cframe s (send_or_park c s t x b fl).
 Proof.
-  unfold send_or_park. destruct (do_send c s x) eqn:E; [eapply do_send_cframe; eauto|].
+  unfold send_or_park. destruct (do_send c s x fl) eqn:E; [eapply do_send_cframe; eauto|].
   unfold cframe; cbn; repeat split; auto.
   intros u. destruct (Nat.eqb t u); [discriminate|auto].
 Qed.
@@ -166,7 +180,8 @@ Proof.
     + eapply cframe_inv; [exact I|].
       eapply cframe_trans; [|destruct (f_site c); [apply cframe_refl|apply cframe_refl|apply sop_cframe]].
       unfold cframe; cbn; repeat split; auto.
-    + eapply cframe_inv; [exact I|]. unfold cframe; cbn; repeat split; auto. intros ->; reflexivity.
+    + eapply cframe_inv; [exact I|]. unfold cframe; cbn; repeat split; auto; [intros ->; reflexivity|].
+      intros u. apply bfind_wflag_wwg.
     + eapply cframe_inv; [exact I|].
       eapply cframe_trans; [|destruct (f_site c); [apply cframe_refl|apply sop_cframe|apply cframe_refl]].
       unfold cframe; cbn; repeat split; auto.
@@ -182,7 +197,7 @@ Proof.
         apply andb_false_iff in EW. destruct EW as [EW|EW].
         { apply I1. destruct (f_loop c); auto; congruence. }
         { destruct (loops s); auto; discriminate. }
-  - unfold resume in H. destruct (bfind t (blocked s)) as [[x b|]|] eqn:Bt; [| |discriminate].
+  - unfold resume in H. destruct (bfind t (blocked s)) as [[x b fl|]|] eqn:Bt; [| |discriminate].
     + destruct (do_send _ _ _) eqn:E; inversion H; subst; clear H.
       eapply cframe_inv; [exact I|]. eapply cframe_trans; [|eapply do_send_cframe; eauto].
       unfold cframe; cbn; repeat split; auto. intros u; apply bfind_bdel_some.
@@ -262,12 +277,12 @@ Qed.
 Lemma zmem_in x d : In x d -> zmem x d = true.
 Proof. intros H. apply existsb_exists. exists x. split; auto. apply Z.eqb_refl. Qed.
 
-Lemma do_send_td c s x s' : do_send c s x = Some s' -> table s' = table s /\ dead s' = dead s.
+Lemma do_send_td c s x fl s' : do_send c s x fl = Some s' -> table s' = table s /\ dead s' = dead s.
 Proof. intros E; dsend E; auto. Qed.
 
-Lemma sop_td c s t x b : table (send_or_park c s t x b) = table s /\ dead (send_or_park c s t x b) = dead s.
+Lemma sop_td c s t x b fl : table (send_or_park c s t x b fl) = table s /\ dead (send_or_park c s t x b fl) = dead s.
 Proof.
-  unfold send_or_park. destruct (do_send c s x) eqn:E; [eapply do_send_td; eauto|auto].
+  unfold send_or_park. destruct (do_send c s x fl) eqn:E; [eapply do_send_td; eauto|auto].
 Qed.
 
 (* the table and the dead list after one step *)
@@ -285,12 +300,12 @@ Proof.
     + destruct (f_loop c); auto. destruct (closed s); auto.
     + destruct (f_site c); auto. destruct (sop_td c (mkSt (closed s) (close_ret s) (loops s) (next_lid s) (chanq s)
         (bind_table c x (table s)) (zremove x (dead s)) (blocked s) (panicked s) (emitted s) (late_close s)
-        (late_unbind s)) t x true) as [-> ->]. auto.
+        (late_unbind s)) t x true false) as [-> ->]. auto.
     + destruct (f_site c); auto.
-      destruct (sop_td c (set_table s (tbump (key c x) (table s))) t x false) as [-> ->]. auto.
+      destruct (sop_td c (set_table s (tbump (key c x) (table s))) t x false true) as [-> ->]. auto.
     + destruct (match f_close c with CloseIdem => false | CloseRaw => closed s end); auto.
       destruct (_ && _); auto.
-  - unfold resume in H. destruct (bfind t (blocked s)) as [[x b|]|]; [| |discriminate].
+  - unfold resume in H. destruct (bfind t (blocked s)) as [[x b fl|]|]; [| |discriminate].
     + destruct (do_send _ _ _) eqn:E; inversion H; subst. apply do_send_td in E. auto.
     + destruct (loops s); inversion H; auto.
   - destruct (lfind i (loops s)) as [[|p]|]; inversion H; auto.
@@ -428,222 +443,133 @@ Proof. intros P x Hx. apply P. right; auto. Qed.
 Lemma lst_ok_norm d p : pend_ok d p -> lst_ok d (norm p).
 Proof. destruct p; cbn; auto. Qed.
 
-(* sends that can park are harmless only if what is received is not written *)
-Definition park_free (c : cfg) : bool :=
-  negb (f_recv_emits c) ||
-  match f_chan c with ChBufNB | ChNone => true | _ => false end ||
-  match f_site c with SendNever => true | _ => false end.
-
 Record UInv (c : cfg) (s : st) : Prop := {
   u_tab : f_table c = TPerSsrc -> AInv s;
-  u_nn : forall x, zmem x (dead s) = true -> 0 <= x;
   u_loops : lall (lst_ok (dead s)) (loops s);
-  u_chan : f_recv_emits c = true -> pend_ok (dead s) (chanq s);
-  u_park : f_recv_emits c = true -> forall t x b, bfind t (blocked s) <> Some (WSend x b);
+  u_chan : pend_ok (dead s) (chanq s);
+  u_park : forall t x b, bfind t (blocked s) = Some (WSend x b false) -> zmem x (dead s) = false;
   u_late : late_unbind s = []
 }.
 
 Lemma uinv_blocked c s b' : UInv c s ->
-  (f_recv_emits c = true -> forall t x b, bfind t b' <> Some (WSend x b)) ->
+  (forall t x b, bfind t b' = Some (WSend x b false) -> zmem x (dead s) = false) ->
   UInv c (set_blocked s b').
-Proof. intros [I1 I2 I3 I4 I5 I6] H. constructor; auto. Qed.
+Proof. intros [I1 I3 I4 I5 I6] H. constructor; auto. Qed.
 
-Lemma do_send_uinv c s x s' : UInv c s -> (f_recv_emits c = true -> zmem x (dead s) = false) ->
-  do_send c s x = Some s' -> UInv c s'.
+Lemma do_send_uinv c s x fl s' : UInv c s -> (fl = false -> zmem x (dead s) = false) ->
+  do_send c s x fl = Some s' -> UInv c s'.
 Proof.
-  intros I Hx E. destruct I as [I1 I2 I3 I4 I5 I6]. dsend E.
+  intros I Hx E. destruct I as [I1 I3 I4 I5 I6]. dsend E.
   - constructor; auto.
   - constructor; auto. cbn. apply lall_lset; auto. cbn. apply pend_ok_single; auto.
-  - constructor; auto. cbn. intros R. apply pend_ok_app; auto. apply pend_ok_single; auto.
+  - constructor; auto. cbn. apply pend_ok_app; auto. apply pend_ok_single; auto.
 Qed.
 
-Lemma do_send_none c s x : do_send c s x = None ->
-  match f_chan c with ChBufNB | ChNone => False | _ => True end.
+Lemma sop_uinv c s t x b fl : UInv c s -> (fl = false -> zmem x (dead s) = false) ->
+  UInv c (send_or_park c s t x b fl).
 Proof.
-  unfold do_send. destruct (f_chan c); auto; try discriminate. destruct (closed s); discriminate.
-Qed.
-
-Lemma sop_uinv c s t x b : park_free c = true -> f_site c <> SendNever ->
-  UInv c s -> (f_recv_emits c = true -> zmem x (dead s) = false) -> UInv c (send_or_park c s t x b).
-Proof.
-  intros PF NS I Hx. unfold send_or_park. destruct (do_send c s x) eqn:E.
+  intros I Hx. unfold send_or_park. destruct (do_send c s x fl) eqn:E.
   - eapply do_send_uinv; eauto.
-  - apply uinv_blocked; auto. intros R. exfalso. apply do_send_none in E.
-    unfold park_free in PF. rewrite R in PF. cbn in PF.
-    destruct (f_chan c); auto; destruct (f_site c); auto; discriminate.
+  - apply uinv_blocked; auto. intros u y bb. cbn [bfind].
+    destruct (Nat.eqb t u).
+    + intros H; inversion H; subst. auto.
+    + apply (u_park _ _ I).
 Qed.
-
-(* a packet handed to Traffic is written later by a loop *)
-Definition traffic_writes (c : cfg) : bool :=
-  match f_site c with SendOnTraffic => f_recv_emits c | _ => false end.
-
-Definition lab_ok (c : cfg) (d : list Z) (l : label) : bool :=
-  match l with
-  | Call _ (OUnbind x) => 0 <=? x
-  | Call _ (OTraffic x) => negb (traffic_writes c) || negb (zmem x d)
-  | _ => true
-  end.
 
 Lemma unbind_safe_unbind c : unbind_safe c = true -> f_table c = TPerSsrc -> f_unbind c = true.
 Proof. unfold unbind_safe. intros H HT. rewrite HT in H. auto. Qed.
 
-Lemma step_uinv c : unbind_safe c = true -> park_free c = true ->
-  forall s l s', UInv c s -> lab_ok c (dead s) l = true -> step c s l = Some s' -> UInv c s'.
+Lemma zremove_keeps_out x y d : zmem y d = false -> zmem y (zremove x d) = false.
+Proof. intros H. rewrite zmem_zremove, H. apply andb_false_r. Qed.
+
+Lemma step_uinv c : unbind_safe c = true ->
+  forall s l s', UInv c s -> step c s l = Some s' -> UInv c s'.
 Proof.
-  intros HS PF s l s' I LO H.
+  intros HS s l s' I H.
   destruct l as [t o|t|i|i|i|i]; cbn [step] in H.
   - destruct (bfind t (blocked s)) eqn:Bt; [discriminate|]. inversion H; subst; clear H.
     destruct o; cbn [call] in *.
     + (* BindW *)
       destruct (f_loop c); auto. destruct (closed s); auto.
-      destruct I as [I1 I2 I3 I4 I5 I6]. constructor; auto. cbn.
+      destruct I as [I1 I3 I4 I5 I6]. constructor; auto. cbn.
       apply lall_app; auto. constructor; cbn; auto.
     + auto.
     + (* Bind x *)
       assert (I' : UInv c (mkSt (closed s) (close_ret s) (loops s) (next_lid s) (chanq s) (bind_table c x (table s))
                        (zremove x (dead s)) (blocked s) (panicked s) (emitted s) (late_close s) (late_unbind s))).
-      { destruct I as [I1 I2 I3 I4 I5 I6]. constructor; cbn; auto.
+      { destruct I as [I1 I3 I4 I5 I6]. constructor; cbn; auto.
         - intros HT. apply ainv_bind; auto. apply I1; auto.
-        - intros y Hy. apply zremove_sub in Hy. auto.
         - eapply lall_ok_mono; [|exact I3]. intros y. apply zremove_sub.
-        - intros R. eapply pend_ok_mono; [|apply I4; auto]. intros y. apply zremove_sub. }
-      destruct (f_site c) eqn:FS; auto. apply sop_uinv; auto; [congruence|].
+        - eapply pend_ok_mono; [|apply I4; auto]. intros y. apply zremove_sub.
+        - intros u y bb Hu. apply zremove_keeps_out. eapply I5; eauto. }
+      destruct (f_site c) eqn:FS; auto. apply sop_uinv; auto.
       intros _. cbn [dead]. rewrite zmem_zremove, Z.eqb_refl. reflexivity.
     + (* Unbind x *)
-      cbn [lab_ok] in LO. apply Z.leb_le in LO.
-      destruct I as [I1 I2 I3 I4 I5 I6]. constructor; cbn; auto.
+      destruct I as [I1 I3 I4 I5 I6]. constructor; cbn [loops chanq table dead blocked late_unbind]; auto.
       * intros HT. apply ainv_unbind; auto using unbind_safe_unbind. apply I1; auto.
-      * intros y Hy. fold (zremove x (dead s)) in Hy. fold (zmem y (zremove x (dead s))) in Hy.
-        destruct (Z.eqb_spec y x); [lia|]. cbn in Hy. apply zremove_sub in Hy. auto.
       * unfold lall in *. apply Forall_map. eapply Forall_impl; [|exact I3].
         intros [j [|p]]; cbn; auto. apply pend_ok_flag.
-      * intros R. apply pend_ok_flag; auto.
+      * apply pend_ok_flag; auto.
+      * intros u y bb Hu. rewrite bfind_wflag in Hu.
+        destruct (bfind u (blocked s)) as [[z b0 f0|]|] eqn:Bu; cbn in Hu; try discriminate.
+        destruct (Z.eqb_spec z x); inversion Hu; subst.
+        rewrite zmem_cons, zmem_zremove. destruct (Z.eqb_spec y x); [contradiction|]. cbn. eapply I5; eauto.
     + (* Traffic x *)
-      cbn [lab_ok] in LO. unfold traffic_writes in LO.
       assert (I' : UInv c (set_table s (tbump (key c x) (table s)))).
-      { destruct I as [I1 I2 I3 I4 I5 I6]. constructor; cbn; auto.
+      { destruct I as [I1 I3 I4 I5 I6]. constructor; cbn; auto.
         intros HT. apply ainv_bump. apply I1; auto. }
-      destruct (f_site c) eqn:FS; auto. apply sop_uinv; auto; [congruence|].
-      intros R. rewrite R in LO. cbn in LO. apply negb_true_iff in LO. exact LO.
+      destruct (f_site c) eqn:FS; auto. apply sop_uinv; auto. discriminate.
     + (* Close *)
-      destruct I as [I1 I2 I3 I4 I5 I6].
+      destruct I as [I1 I3 I4 I5 I6].
       destruct (match f_close c with CloseIdem => false | CloseRaw => closed s end); [constructor; auto|].
       destruct (_ && _); constructor; cbn; auto.
-      intros R u y b. destruct (Nat.eqb t u); [discriminate|auto].
-  - unfold resume in H. destruct (bfind t (blocked s)) as [[x b|]|] eqn:Bt; [| |discriminate].
-    + destruct (do_send _ _ _) eqn:E; inversion H; subst; clear H.
-      destruct (f_recv_emits c) eqn:R.
-      * exfalso. eapply (u_park _ _ I); eauto.
-      * eapply do_send_uinv; [| |exact E]; [|cbn; rewrite R; discriminate].
-        apply uinv_blocked; auto. rewrite R; discriminate.
+      intros u y b. destruct (Nat.eqb t u); [discriminate|apply I5].
+  - unfold resume in H. destruct (bfind t (blocked s)) as [[x b fl|]|] eqn:Bt; [| |discriminate].
+    + destruct (do_send _ _ _ _) eqn:E; inversion H; subst; clear H.
+      eapply do_send_uinv; [| |exact E].
+      * apply uinv_blocked; auto. intros u y bb Hu. apply bfind_bdel_some in Hu. eapply (u_park _ _ I); eauto.
+      * intros ->. cbn. eapply (u_park _ _ I); eauto.
     + destruct (loops s) eqn:EL; inversion H; subst; clear H.
-      destruct I as [I1 I2 I3 I4 I5 I6]. constructor; cbn; auto.
+      destruct I as [I1 I3 I4 I5 I6]. constructor; cbn; auto.
       * constructor.
-      * intros R u y b Hu. apply bfind_bdel_some in Hu. eapply I5; eauto.
+      * intros u y b Hu. apply bfind_bdel_some in Hu. eapply I5; eauto.
   - destruct (lfind i (loops s)) as [[|p]|] eqn:EL; inversion H; subst; clear H.
-    destruct I as [I1 I2 I3 I4 I5 I6]. constructor; cbn; auto.
+    destruct I as [I1 I3 I4 I5 I6]. constructor; cbn; auto.
     apply lall_lset; auto. apply lst_ok_norm.
     unfold snapshot. destruct (f_table c) eqn:HT.
-    + apply pend_ok_single. intros _. destruct (zmem (-1) (dead s)) eqn:E; auto. apply I2 in E. lia.
+    + apply pend_ok_single. discriminate.
     + intros y Hy. apply in_map_iff in Hy. destruct Hy as ([z n] & E & Hin). cbn [fst] in E. inversion E; subst.
       apply filter_In in Hin. destruct Hin as [Hin _]. apply tfind_in in Hin.
       destruct (zmem y (dead s)) eqn:EZ; auto. apply I1 in EZ; auto. contradiction.
-    + apply pend_ok_single. intros _. destruct (zmem (-1) (dead s)) eqn:E; auto. apply I2 in E. lia.
+    + apply pend_ok_single. discriminate.
   - destruct (lfind i (loops s)) as [[|[|[x fl] rest]]|] eqn:EL; inversion H; subst; clear H.
-    destruct I as [I1 I2 I3 I4 I5 I6].
+    destruct I as [I1 I3 I4 I5 I6].
     pose proof (lall_lfind _ _ _ _ I3 EL) as P. cbn in P.
     constructor; cbn; auto.
     + apply lall_lset; auto. apply lst_ok_norm. eapply pend_ok_tail; eauto.
     + destruct fl; cbn; [rewrite andb_false_r; auto|]. rewrite (P x); [auto|left; auto].
   - destruct (lfind i (loops s)) as [[|p]|] eqn:EL; try discriminate.
     destruct (chanq s) as [|[x fl] q] eqn:EQ; inversion H; subst; clear H.
-    destruct I as [I1 I2 I3 I4 I5 I6]. rewrite EQ in I4. constructor; cbn; auto.
+    destruct I as [I1 I3 I4 I5 I6]. rewrite EQ in I4. constructor; cbn; auto.
     + destruct (f_recv_emits c) eqn:R; auto. apply lall_lset; auto. cbn.
       apply pend_ok_single. intros ->. apply I4; auto. left; auto.
-    + intros R. eapply pend_ok_tail; eauto.
+    + eapply pend_ok_tail; eauto.
   - destruct (lfind i (loops s)) as [[|p]|] eqn:EL; try discriminate.
     destruct (closed s); inversion H; subst; clear H.
-    destruct I as [I1 I2 I3 I4 I5 I6]. constructor; cbn; auto. apply lall_ldel; auto.
-Qed.
-
-(* the usage discipline of a trace: SSRCs passed to Unbind are not negative (the model uses -1 for the
-   transport-wide report of an interceptor without a per-stream table), and - for an interceptor whose loop
-   writes the packets handed to it - traffic flows only on streams that are not unbound; [d] is the dead
-   list of the state the trace starts in *)
-Fixpoint ops_ok (c : cfg) (d : list Z) (tr : list label) : bool :=
-  match tr with
-  | [] => true
-  | Call t (OBind x) :: tl => ops_ok c (zremove x d) tl
-  | Call t (OUnbind x) :: tl => (0 <=? x) && ops_ok c (x :: zremove x d) tl
-  | Call t (OTraffic x) :: tl => (negb (traffic_writes c) || negb (zmem x d)) && ops_ok c d tl
-  | _ :: tl => ops_ok c d tl
-  end.
-
-Lemma run_uinv c : unbind_safe c = true -> park_free c = true ->
-  forall tr s s', UInv c s -> ops_ok c (dead s) tr = true -> run c s tr = Some s' -> UInv c s'.
-Proof.
-  intros HS PF tr; induction tr as [|l tl IH]; intros s s' I OK HR; cbn [run] in HR.
-  - inversion HR; subst; auto.
-  - destruct (step c s l) as [s1|] eqn:E; [|discriminate].
-    pose proof (step_td c s l s1 E) as TD.
-    apply (IH s1 s'); auto.
-    + eapply step_uinv; eauto.
-      destruct l as [t [| |x|x|x|]|t|i|i|i|i]; cbn in OK |- *; auto;
-        apply andb_true_iff in OK; tauto.
-    + destruct l as [t [| |x|x|x|]|t|i|i|i|i]; destruct TD as [_ ->]; cbn in OK; auto;
-        apply andb_true_iff in OK; tauto.
+    destruct I as [I1 I3 I4 I5 I6]. constructor; cbn; auto. apply lall_ldel; auto.
 Qed.
 
 Lemma uinv_init c : UInv c (init c).
 Proof.
   constructor; cbn; try discriminate; auto.
   - destruct (f_loop c); repeat constructor.
-  - intros _ x [].
+  - intros x [].
 Qed.
 
-(* NOTE: two hypotheses more than [unbind_safe]: see the comment on [ops_ok] and on [park_free].
-   Without [ops_ok]: pacing_cfg, trace Unbind 5; Traffic 5; LRecv 0; LEmit 0 (or Unbind (-1); LTick; LEmit for
-   any interceptor without a per-stream table).  Without [park_free]: a caller parked in the send of Bind x /
-   Traffic x is overtaken by Unbind x and its packet is written afterwards. *)
-Lemma unbind_stops c tr s : unbind_safe c = true -> park_free c = true -> ops_ok c [] tr = true ->
-  run c (init c) tr = Some s -> late_unbind s = [].
+Lemma unbind_stops c tr s : unbind_safe c = true -> run c (init c) tr = Some s -> late_unbind s = [].
 Proof.
-  intros HS PF OK HR. eapply u_late. eapply (run_uinv c HS PF tr (init c) s); auto. apply uinv_init.
-Qed.
-
-Lemma park_free_instances :
-  park_free nack_generator_cfg = true /\ park_free nack_responder_cfg = true /\
-  park_free report_receiver_cfg = true /\ park_free report_sender_cfg = true /\
-  park_free twcc_sender_cfg = true /\ park_free intervalpli_cfg = true /\
-  park_free packetdump_cfg = true /\ park_free pacing_cfg = true /\
-  park_free flexfec_cfg = true /\ park_free chain_cfg = true.
-Proof. repeat split; reflexivity. Qed.
-
-(* the statement without the usage discipline is false, even for an interceptor with safe_cfg *)
-Lemma unbind_stops_needs_ops_ok : exists tr s,
-  safe_cfg pacing_cfg = true /\ run pacing_cfg (init pacing_cfg) tr = Some s /\ late_unbind s <> [].
-Proof.
-  exists [Call 0 (OUnbind 5); Call 0 (OTraffic 5); LRecv 0; LEmit 0].
-  eexists. split; [reflexivity|]. split; [vm_compute; reflexivity|]. cbn. discriminate.
-Qed.
-
-(* -1 is the model's SSRC of the transport-wide report: Unbind (-1) must be excluded *)
-Lemma unbind_stops_needs_nonneg : exists tr s,
-  safe_cfg twcc_sender_cfg = true /\ run twcc_sender_cfg (init twcc_sender_cfg) tr = Some s /\ late_unbind s <> [].
-Proof.
-  exists [Call 0 OBindW; Call 0 (OUnbind (-1)); LTick 1; LEmit 1].
-  eexists. split; [reflexivity|]. split; [vm_compute; reflexivity|]. cbn. discriminate.
-Qed.
-
-(* safe_cfg alone does not give unbind_stops either: a feature record that passes safe_cfg but whose Bind can
-   park on the hand-off channel (not one of the interceptors) *)
-Definition parking_bind_cfg := mkCfg LoopOnBindW true ChUnbufSel SendOnBind true CloseIdem TPerSsrc true true false.
-Lemma unbind_stops_needs_park_free : exists tr s,
-  safe_cfg parking_bind_cfg = true /\ ops_ok parking_bind_cfg [] tr = true /\
-  run parking_bind_cfg (init parking_bind_cfg) tr = Some s /\ late_unbind s <> [].
-Proof.
-  exists [Call 0 OBindW; Call 0 (OBind 1); Call 1 (OBind 2); Call 2 (OUnbind 2); LEmit 1; Resume 1; LEmit 1].
-  eexists. split; [reflexivity|]. split; [reflexivity|]. split; [vm_compute; reflexivity|]. cbn. discriminate.
+  intros HS HR. eapply u_late.
+  exact (run_inv c (UInv c) (step_uinv c HS) tr (init c) s (uinv_init c) HR).
 Qed.
 
 (* ================= no_stranded ================= *)
@@ -663,14 +589,14 @@ Proof.
   - exists (e :: p); auto.
 Qed.
 
-Lemma do_send_winv c s x s' : WInv s -> do_send c s x = Some s' -> WInv s'.
+Lemma do_send_winv c s x fl s' : WInv s -> do_send c s x fl = Some s' -> WInv s'.
 Proof.
   intros [I1 I2] E. dsend E; split; cbn; auto. apply lall_lset; auto. discriminate.
 Qed.
 
-Lemma sop_winv c s t x b : WInv s -> WInv (send_or_park c s t x b).
+Lemma sop_winv c s t x b fl : WInv s -> WInv (send_or_park c s t x b fl).
 Proof.
-  intros I. unfold send_or_park. destruct (do_send c s x) eqn:E; [eapply do_send_winv; eauto|].
+  intros I. unfold send_or_park. destruct (do_send c s x fl) eqn:E; [eapply do_send_winv; eauto|].
   destruct I as [I1 I2]. split; cbn; auto. intros u. destruct (Nat.eqb t u); [discriminate|apply I1].
 Qed.
 
@@ -684,14 +610,15 @@ Proof.
       apply lall_app; auto. constructor; [discriminate|constructor].
     + auto.
     + destruct (f_site c); auto. apply sop_winv. exact I.
-    + destruct I as [I1 I2]. split; cbn; auto.
-      unfold lall in *. apply Forall_map. eapply Forall_impl; [|exact I2].
-      intros [j [|[|e p]]]; cbn; unfold lst_ne; auto; discriminate.
+    + destruct I as [I1 I2]. split; cbn [closed blocked loops].
+      * intros u Hu. apply bfind_wflag_wwg in Hu. eauto.
+      * unfold lall in *. apply Forall_map. eapply Forall_impl; [|exact I2].
+        intros [j [|[|e p]]]; cbn; unfold lst_ne; auto; discriminate.
     + destruct (f_site c); auto. apply sop_winv. exact I.
     + destruct I as [I1 I2].
       destruct (match f_close c with CloseIdem => false | CloseRaw => closed s end); [split; cbn; auto|].
       destruct (_ && _); split; cbn; auto.
-  - unfold resume in H. destruct (bfind t (blocked s)) as [[x b|]|] eqn:Bt; [| |discriminate].
+  - unfold resume in H. destruct (bfind t (blocked s)) as [[x b fl|]|] eqn:Bt; [| |discriminate].
     + destruct (do_send _ _ _) eqn:E; inversion H; subst; clear H.
       eapply do_send_winv; [|exact E]. destruct I as [I1 I2]. split; cbn; auto.
       intros u Hu. apply bfind_bdel_some in Hu. eauto.
@@ -739,22 +666,22 @@ Proof.
     exists (c1 ++ c2), s2. rewrite run_app, R1. repeat split; auto. congruence.
 Qed.
 
-Lemma do_send_blocked c s x s' : do_send c s x = Some s' -> blocked s' = blocked s.
+Lemma do_send_blocked c s x fl s' : do_send c s x fl = Some s' -> blocked s' = blocked s.
 Proof. intros E; dsend E; auto. Qed.
 
-Lemma do_send_closed_some c s x : chan_safe c = true -> closed s = true -> exists s', do_send c s x = Some s'.
+Lemma do_send_closed_some c s x fl : chan_safe c = true -> closed s = true -> exists s', do_send c s x fl = Some s'.
 Proof.
   unfold chan_safe, do_send. intros HS HC. destruct (f_chan c); try discriminate; eauto.
   - destruct (first_idle (loops s)); eauto. rewrite HC; eauto.
   - rewrite HC; eauto.
 Qed.
 
-Lemma resume_send_closed c s t x b : chan_safe c = true -> closed s = true ->
-  bfind t (blocked s) = Some (WSend x b) ->
+Lemma resume_send_closed c s t x b fl : chan_safe c = true -> closed s = true ->
+  bfind t (blocked s) = Some (WSend x b fl) ->
   exists s', step c s (Resume t) = Some s' /\ bfind t (blocked s') = None.
 Proof.
   intros HS HC Bt. cbn [step]. unfold resume. rewrite Bt.
-  destruct (do_send_closed_some c (set_blocked s (bdel t (blocked s))) x HS HC) as [s' E].
+  destruct (do_send_closed_some c (set_blocked s (bdel t (blocked s))) x fl HS HC) as [s' E].
   rewrite E. exists s'. split; auto. apply do_send_blocked in E. rewrite E. cbn.
   rewrite bfind_bdel, Nat.eqb_refl. reflexivity.
 Qed.
@@ -783,13 +710,13 @@ Lemma no_stranded c tr s t w : chan_safe c = true -> run c (init c) tr = Some s 
 Proof.
   intros HS HR Bt.
   assert (I : WInv s) by (exact (run_inv c WInv (step_winv c) tr (init c) s (winv_init c) HR)).
-  destruct I as [I1 I2]. destruct w as [x b|].
+  destruct I as [I1 I2]. destruct w as [x b fl|].
   - destruct (closed s) eqn:HC.
-    + destruct (resume_send_closed c s t x b HS HC Bt) as (s' & E & B).
+    + destruct (resume_send_closed c s t x b fl HS HC Bt) as (s' & E & B).
       exists [Resume t], s'. cbn [run]. rewrite E. auto.
     + destruct (bfind_fresh (blocked s)) as [t' F]. specialize (F t' (le_n _)).
       destruct (close_call c s t' t _ F Bt) as [C1 B1].
-      destruct (resume_send_closed c _ t x b HS C1 B1) as (s' & E & B).
+      destruct (resume_send_closed c _ t x b fl HS C1 B1) as (s' & E & B).
       exists [Call t' OClose; Resume t], s'. cbn [step] in E. cbn [run step]. rewrite F. cbn [run step]. rewrite E. auto.
   - pose proof (I1 t Bt) as HC.
     destruct (drain_all c (loops s) s eq_refl HC I2) as (c1 & s1 & R1 & L1 & B1 & C1).
@@ -798,55 +725,60 @@ Proof.
 Qed.
 
 (* ================= parked for ever ================= *)
-Definition stuck (c : cfg) (t : nat) (x : Z) (b : bool) (s : st) : Prop :=
-  closed s = true /\ loops s = [] /\ (f_chan c = ChBuf1 -> chanq s <> []) /\
-  bfind t (blocked s) = Some (WSend x b).
+Definition parked_send (t : nat) (s : st) : Prop := exists x b fl, bfind t (blocked s) = Some (WSend x b fl).
 
-Lemma do_send_stuck c s y : f_chan c = ChUnbuf \/ f_chan c = ChBuf1 -> loops s = [] ->
-  (f_chan c = ChBuf1 -> chanq s <> []) -> do_send c s y = None.
+Definition stuck (c : cfg) (t : nat) (s : st) : Prop :=
+  closed s = true /\ loops s = [] /\ (f_chan c = ChBuf1 -> chanq s <> []) /\ parked_send t s.
+
+Lemma do_send_stuck c s y fl : f_chan c = ChUnbuf \/ f_chan c = ChBuf1 -> loops s = [] ->
+  (f_chan c = ChBuf1 -> chanq s <> []) -> do_send c s y fl = None.
 Proof.
   intros HC HL HQ. unfold do_send. destruct HC as [HC|HC]; rewrite HC.
   - rewrite HL. reflexivity.
   - destruct (chanq s); [contradiction HQ; auto|reflexivity].
 Qed.
 
-Lemma sop_stuck c t x b s u y bb : f_chan c = ChUnbuf \/ f_chan c = ChBuf1 -> u <> t ->
-  stuck c t x b s -> stuck c t x b (send_or_park c s u y bb).
+Lemma sop_stuck c t s u y bb fl : f_chan c = ChUnbuf \/ f_chan c = ChBuf1 -> u <> t ->
+  stuck c t s -> stuck c t (send_or_park c s u y bb fl).
 Proof.
-  intros HC N (S1 & S2 & S3 & S4). unfold send_or_park. rewrite do_send_stuck; auto.
-  repeat split; cbn; auto. destruct (Nat.eqb_spec u t); [contradiction|auto].
+  intros HC N (S1 & S2 & S3 & (x & b & f & S4)). unfold send_or_park. rewrite do_send_stuck; auto.
+  split; [|split; [|split]]; cbn; auto. exists x, b, f. cbn.
+  destruct (Nat.eqb_spec u t); [contradiction|auto].
 Qed.
 
-Lemma stuck_step c t x b : f_chan c = ChUnbuf \/ f_chan c = ChBuf1 ->
-  forall s l s', stuck c t x b s -> step c s l = Some s' -> stuck c t x b s'.
+Lemma stuck_step c t : f_chan c = ChUnbuf \/ f_chan c = ChBuf1 ->
+  forall s l s', stuck c t s -> step c s l = Some s' -> stuck c t s'.
 Proof.
-  intros HC s l s' S H. pose proof S as (S1 & S2 & S3 & S4).
+  intros HC s l s' S H. pose proof S as (S1 & S2 & S3 & (x & b & f & S4)).
   destruct l as [u o|u|i|i|i|i]; cbn [step] in H; try (rewrite S2 in H; discriminate).
   - destruct (bfind u (blocked s)) eqn:Bu; [discriminate|]. inversion H; subst; clear H.
     assert (N : u <> t) by (intros ->; congruence).
     destruct o; cbn [call].
     + rewrite S1. destruct (f_loop c); auto.
     + auto.
-    + destruct (f_site c); try apply sop_stuck; auto; repeat split; auto.
-    + repeat split; cbn; auto.
+    + destruct (f_site c); try apply sop_stuck; auto; (split; [|split; [|split]]); auto; exists x, b, f; auto.
+    + split; [|split; [|split]]; cbn [closed loops chanq blocked]; auto.
       * rewrite S2; reflexivity.
       * intros E. apply S3 in E. destruct (chanq s); [contradiction E; auto|discriminate].
-    + destruct (f_site c); try apply sop_stuck; auto; repeat split; auto.
-    + destruct (match f_close c with CloseIdem => false | CloseRaw => closed s end); [repeat split; cbn; auto|].
-      destruct (_ && _); repeat split; cbn; auto.
+      * unfold parked_send. cbn [blocked]. rewrite bfind_wflag, S4. cbn.
+        destruct (x =? x0); eauto.
+    + destruct (f_site c); try apply sop_stuck; auto; (split; [|split; [|split]]); auto; exists x, b, f; auto.
+    + destruct (match f_close c with CloseIdem => false | CloseRaw => closed s end);
+        [split; [|split; [|split]]; cbn; auto; exists x, b, f; auto|].
+      destruct (_ && _); (split; [|split; [|split]]); cbn; auto; exists x, b, f; cbn; auto.
       destruct (Nat.eqb_spec u t); [contradiction|auto].
-  - unfold resume in H. destruct (bfind u (blocked s)) as [[y bb|]|] eqn:Bu; [| |discriminate].
+  - unfold resume in H. destruct (bfind u (blocked s)) as [[y bb ff|]|] eqn:Bu; [| |discriminate].
     + rewrite do_send_stuck in H; auto; discriminate.
-    + rewrite S2 in H. inversion H; subst; clear H. repeat split; cbn; auto.
-      rewrite bfind_bdel. destruct (Nat.eqb_spec u t); [subst; congruence|auto].
+    + rewrite S2 in H. inversion H; subst; clear H. split; [|split; [|split]]; cbn; auto.
+      exists x, b, f. cbn. rewrite bfind_bdel. destruct (Nat.eqb_spec u t); [subst; congruence|auto].
 Qed.
 
-Lemma stuck_forever c t x b s : f_chan c = ChUnbuf \/ f_chan c = ChBuf1 -> stuck c t x b s ->
+Lemma stuck_forever c t s : f_chan c = ChUnbuf \/ f_chan c = ChBuf1 -> stuck c t s ->
   forall cont s', run c s cont = Some s' -> bfind t (blocked s') <> None.
 Proof.
   intros HC S cont s' HR.
-  assert (S' : stuck c t x b s') by (exact (run_inv c (stuck c t x b) (stuck_step c t x b HC) cont s s' S HR)).
-  destruct S' as (_ & _ & _ & B). congruence.
+  assert (S' : stuck c t s') by (exact (run_inv c (stuck c t) (stuck_step c t HC) cont s s' S HR)).
+  destruct S' as (_ & _ & _ & (x & b & f & B)). congruence.
 Qed.
 
 (* rfc8888 before its fix: Read after Close parks for ever *)
@@ -856,8 +788,8 @@ Lemma rfc8888_unfixed_stranded : exists tr s t,
 Proof.
   exists [Call 0 OBindW; Call 0 OClose; LExit 1; Resume 0; Call 1 (OTraffic 1)].
   eexists. exists 1%nat. split; [vm_compute; reflexivity|]. split; [cbn; discriminate|].
-  apply (stuck_forever _ 1%nat 1 false); [left; reflexivity|].
-  repeat split; cbn; auto. discriminate.
+  apply (stuck_forever _ 1%nat); [left; reflexivity|].
+  split; [|split; [|split]]; cbn; auto; [discriminate|]. exists 1, false, true. reflexivity.
 Qed.
 
 (* intervalpli before its fix: second BindRemoteStream after Close parks for ever *)
@@ -867,8 +799,122 @@ Lemma intervalpli_unfixed_stranded : exists tr s t,
 Proof.
   exists [Call 0 OBindW; Call 0 OClose; LExit 1; Resume 0; Call 1 (OBind 1); Call 2 (OBind 2)].
   eexists. exists 2%nat. split; [vm_compute; reflexivity|]. split; [cbn; discriminate|].
-  apply (stuck_forever _ 2%nat 2 true); [right; reflexivity|].
-  repeat split; cbn; auto. discriminate.
+  apply (stuck_forever _ 2%nat); [right; reflexivity|].
+  split; [|split; [|split]]; cbn; auto; [discriminate|]. exists 2, true, false. reflexivity.
+Qed.
+
+(* ================= one_in_flight ================= *)
+(* what a loop is about to write never mentions an SSRC twice *)
+Definition lst_nd (l : lstate) : Prop :=
+  match l with LIdle => True | LWrite p => NoDup (map fst p) end.
+
+Definition OInv (s : st) : Prop := NoDup (map fst (table s)) /\ lall lst_nd (loops s).
+
+Lemma in_tremove y x t : In y (map fst (tremove x t)) -> y <> x /\ In y (map fst t).
+Proof.
+  induction t as [|[z n] t IH]; cbn [tremove map fst In]; [tauto|].
+  destruct (Z.eqb_spec z x).
+  - intros H; apply IH in H. tauto.
+  - cbn [map fst In]. intros [E|H]; [subst; auto|apply IH in H; tauto].
+Qed.
+
+Lemma nodup_tremove x t : NoDup (map fst t) -> NoDup (map fst (tremove x t)).
+Proof.
+  induction t as [|[z n] t IH]; cbn [tremove map fst]; auto.
+  intros H; inversion H; subst. destruct (z =? x); auto. cbn [map fst]. constructor; auto.
+  intros K; apply in_tremove in K. tauto.
+Qed.
+
+Lemma nodup_tset x n t : NoDup (map fst t) -> NoDup (map fst (tset x n t)).
+Proof.
+  intros H. unfold tset. cbn [map fst]. constructor; [|apply nodup_tremove; auto].
+  intros K; apply in_tremove in K. destruct K as [K _]; auto.
+Qed.
+
+Lemma fst_tbump k t : map fst (tbump k t) = map fst t.
+Proof. unfold tbump. rewrite map_map. apply map_ext. intros [z n]; cbn. destruct (z =? k); auto. Qed.
+
+Lemma fst_flag x p : map fst (flag x p) = map fst p.
+Proof. unfold flag. rewrite map_map. apply map_ext. intros [z n]; cbn. destruct (z =? x); auto. Qed.
+
+Lemma nodup_filter (f : Z * nat -> bool) t : NoDup (map fst t) -> NoDup (map fst (filter f t)).
+Proof.
+  induction t as [|e t IH]; cbn [filter map]; auto.
+  intros H; inversion H; subst. destruct (f e); auto. cbn [map]. constructor; auto.
+  intros K. apply in_map_iff in K. destruct K as (e' & E & K). apply filter_In in K.
+  destruct K as [K _]. apply H2. rewrite <- E. apply in_map; auto.
+Qed.
+
+Lemma nodup_snapshot c s : NoDup (map fst (table s)) -> NoDup (map fst (snapshot c s)).
+Proof.
+  intros H. unfold snapshot. destruct (f_table c); try (repeat constructor; cbn; tauto).
+  rewrite map_map. cbn [fst]. apply nodup_filter; auto.
+Qed.
+
+Lemma lst_nd_norm p : NoDup (map fst p) -> lst_nd (norm p).
+Proof. destruct p; cbn; auto. Qed.
+
+Lemma lst_nd_single e : lst_nd (LWrite [e]).
+Proof. cbn. repeat constructor. cbn; tauto. Qed.
+
+Lemma do_send_lnd c s x fl s' : lall lst_nd (loops s) -> do_send c s x fl = Some s' -> lall lst_nd (loops s').
+Proof. intros I E. dsend E; cbn; auto. apply lall_lset; auto. apply lst_nd_single. Qed.
+
+Lemma sop_lnd c s t x b fl : lall lst_nd (loops s) -> lall lst_nd (loops (send_or_park c s t x b fl)).
+Proof.
+  intros I. unfold send_or_park. destruct (do_send c s x fl) eqn:E; [eapply do_send_lnd; eauto|auto].
+Qed.
+
+Lemma step_oinv c s l s' : OInv s -> step c s l = Some s' -> OInv s'.
+Proof.
+  intros [I1 I2] H. split.
+  - apply step_td in H.
+    destruct l as [t [| |x|x|x|]|t|i|i|i|i]; destruct H as [-> _]; auto.
+    + unfold bind_table. destruct (f_table c); auto;
+        (destruct (f_bind_resets c); [|destruct (tfind (key c x) (table s))]); auto using nodup_tset.
+    + unfold unbind_table. destruct (f_unbind c); auto.
+      destruct (f_table c); auto using nodup_tremove. repeat constructor. cbn; tauto.
+    + rewrite fst_tbump; auto.
+  - destruct l as [t o|t|i|i|i|i]; cbn [step] in H.
+    + destruct (bfind t (blocked s)) eqn:Bt; [discriminate|]. inversion H; subst; clear H.
+      destruct o; cbn [call]; auto.
+      * destruct (f_loop c); auto. destruct (closed s); auto. cbn.
+        apply lall_app; auto. constructor; cbn; auto.
+      * destruct (f_site c); auto. apply sop_lnd. auto.
+      * cbn. unfold lall in *. apply Forall_map. eapply Forall_impl; [|exact I2].
+        intros [j [|p]]; cbn; auto. rewrite fst_flag; auto.
+      * destruct (f_site c); auto. apply sop_lnd. auto.
+      * destruct (match f_close c with CloseIdem => false | CloseRaw => closed s end); auto.
+        destruct (_ && _); auto.
+    + unfold resume in H. destruct (bfind t (blocked s)) as [[x b fl|]|] eqn:Bt; [| |discriminate].
+      * destruct (do_send _ _ _ _) eqn:E; inversion H; subst; clear H.
+        eapply do_send_lnd; [|exact E]. auto.
+      * destruct (loops s) eqn:EL; inversion H; subst; clear H. constructor.
+    + destruct (lfind i (loops s)) as [[|p]|] eqn:EL; inversion H; subst; clear H. cbn.
+      apply lall_lset; auto. apply lst_nd_norm, nodup_snapshot; auto.
+    + destruct (lfind i (loops s)) as [[|[|[x fl] rest]]|] eqn:EL; inversion H; subst; clear H. cbn.
+      pose proof (lall_lfind _ _ _ _ I2 EL) as P. cbn in P. inversion P; subst.
+      apply lall_lset; auto. apply lst_nd_norm; auto.
+    + destruct (lfind i (loops s)) as [[|p]|] eqn:EL; try discriminate.
+      destruct (chanq s) as [|e q]; inversion H; subst; clear H. cbn.
+      destruct (f_recv_emits c); auto. apply lall_lset; auto. apply lst_nd_single.
+    + destruct (lfind i (loops s)) as [[|p]|] eqn:EL; try discriminate.
+      destruct (closed s); inversion H; subst; clear H. cbn. apply lall_ldel; auto.
+Qed.
+
+Lemma oinv_init c : OInv (init c).
+Proof.
+  split; cbn.
+  - destruct (f_table c); repeat constructor. cbn; tauto.
+  - destruct (f_loop c); repeat constructor.
+Qed.
+
+Lemma one_in_flight c tr s i p : run c (init c) tr = Some s ->
+  lfind i (loops s) = Some (LWrite p) -> NoDup (map fst p).
+Proof.
+  intros HR HL.
+  assert (I : OInv s) by (exact (run_inv c OInv (step_oinv c) tr (init c) s (oinv_init c) HR)).
+  destruct I as [_ I]. exact (lall_lfind _ _ _ _ I HL).
 Qed.
 
 (* ================= instances and refutations (concrete witness traces) ================= *)
